@@ -97,6 +97,12 @@ ReleaseSlice(t, n) == ReprC(<<Word, L(t.size * n, t.align)>>)
 
 \* what as_ptr - heap_ptr must be, and what ArcInner::offset_of_data recomputes from the value
 DataOffset(v) == Extend(Word, v)[2]
+
+\* C11 / C12: every handle is one pointer wide -- two for handles to slices and trait objects -- in every build
+\* profile, and leaves the null niche to Option (so Option<handle> is as wide as the handle)
+HandleWords == [Arc |-> 1, OffsetArc |-> 1, ArcBorrow |-> 1, ArcUnion |-> 1, UniqueArc |-> 1, ThinArc |-> 1,
+                ArcSlice |-> 2, ArcDyn |-> 2, UniqueArcSlice |-> 2, ArcBorrowSlice |-> 2, ArcStr |-> 2, ArcHeaderSlice |-> 2]
+HandleBytes == [k \in DOMAIN HandleWords |-> HandleWords[k] * Word.size]
 \* where the header of a header-slice block lives, and where its slice starts
 SliceOffset(h, t) == DataOffset(L(0, Max(h.align, t.align))) + RoundUp(h.size, t.align)
 \* where thin_to_thick reads the recorded length: field `length` of HeaderWithLength<H>
